@@ -43,7 +43,7 @@ REQUIRED = ['status_400', 'status_505', 'status_500', 'status_200_dispatched', '
             'truncation_cases', 'multi_read_cases', 'ref_parser_selftest_checks', 'announced_close_followed_by_close']
 REQUIRED_OBLIGATIONS = ['INCOMPLETE_MESSAGE_WAITS', 'LOOP_SURVIVES', 'ONE_VALID_RESPONSE_PER_READ', 'CLOSE_FOLLOWS_ANNOUNCEMENT', 'REJECTED_NOT_DISPATCHED',
                         'ERROR_STATUS_FOR_REJECTED', 'NO_STATE_AFTER_DISCONNECT', 'WELL_FORMED_DISPATCHED', 'EXCEPTION_ANSWERED_OR_CLOSED',
-                        'DISPATCHED_HEADERS_CLEAN']
+                        'DISPATCHED_HEADERS_CLEAN', 'BARE_CLOSE_ONLY_FOR_TLS']
 # KEPT_OPEN_CONNECTION_STILL_SERVES is only evaluated when the component answers a hostile message without closing; the tree under
 # test closes after every error response, so zero evaluations of it are the expected outcome and it is not required
 WORKER_TIMEOUT = {'quick': 300, 'thorough': 1500}
@@ -61,6 +61,8 @@ import gzip as _gzip  # noqa: E402
 _GZ = _gzip.compress(b''.join(b'line %03d: the quick brown fox jumps over the lazy dog\n' % i for i in range(40)), mtime=0)
 # a well-compressible gzip body: Content-Length counts the compressed bytes on the wire, not what they decompress to
 GOOD_GZIP = b'POST /gz HTTP/1.1\r\nHost: h\r\nContent-Encoding: gzip\r\nContent-Length: %d\r\n\r\n%s' % (len(_GZ), _GZ)
+# obs-text (RFC 7230 3.2.6): bytes >= 0x80 are legal in field values - raw UTF-8 and Latin-1 here
+GOOD_OBS = b'GET /ok HTTP/1.1\r\nHost: h\r\nX-Name: caf\xc3\xa9 \xe9t\xe9\r\nCookie: n=\xe2\x82\xac\r\n\r\n'
 PROBE_BODY = b'probe saw the request'
 CTL_OR_BACKSLASH = re.compile(rb'[\x00-\x08\x0b\x0c\x0e-\x1f\x7f\\]')
 OTHER_MAJOR = re.compile(rb'(?m)^([^\r\n]* )HTTP/[02-9]\.\d\r\n')
@@ -265,8 +267,17 @@ def judge(case, obs):
     complete = obs['delivered'] == len(case['chunks'])
     any_request = False
     statuses = []
+    msg_from = 0      # index of the read with which the message being received began
     for i, st in enumerate(obs['steps']):
         any_request = any_request or st['requests'] > 0
+        if st['closes'] and not st['written'] and not st['requests']:
+            # "or simply closes (TLS handshake on a plain-text port)": closing without a word is reserved for connections whose message
+            # starts like a TLS / SSLv2 record (first byte 0x16, or the high bit set) - everything else is waited for or answered
+            head = b''.join(case['chunks'][msg_from:i + 1])[:1]
+            res.append(('BARE_CLOSE_ONLY_FOR_TLS', bool(head) and (head[0] == 0x16 or head[0] & 0x80 == 0x80),
+                        {'read': i, 'message_began_with': b''.join(case['chunks'][msg_from:i + 1])[:24], 'this_read_began_with': case['chunks'][i][:12]}, cls))
+        if st['written'] or st['closes']:
+            msg_from = i + 1
         detail = None
         rs, err = ref_http.parse_responses(st['written'], closed=bool(st['closes']))
         if err is not None or len(rs) > 1 or st['requests'] > 1 or st['foreign']:
@@ -478,7 +489,7 @@ def mutations(rng, orig):
     """(class, expect, bytes) for one random mutation of the well-formed request ``orig``."""
     line, hs, body = split_head(orig)
     method, target, version = line.split(b' ')
-    k = rng.randrange(38)
+    k = rng.randrange(41)
     if k == 0:
         return 'firstline-tokens', 'reject', join_head(rng.choice([method + b' ' + target, method, b'GARBAGE', b'', target + b' ' + version]), hs, body)
     if k == 1:
@@ -605,12 +616,21 @@ def mutations(rng, orig):
             return 'folded-control-byte', 'any', join_head(b' '.join([method, tgt, version]), hs2, body)
         hs2.insert(rng.randint(0, len(hs2)), b'X-Fold: first' + cont)
         return 'folded-control-byte', 'any', join_head(line, hs2, body)
+    if k in (38, 39):
+        hs2 = list(hs)
+        hs2.insert(rng.randint(0, len(hs2)), b'X-Obs: ' + rng.choice([b'caf\xc3\xa9', b'\xe9', b'a \xe2\x82\xac b', b'\xff\xfe', b'\x80'])) 
+        return 'obs-text-in-header-value', 'accept', join_head(line, hs2, body)
     return 'well-formed', 'accept', orig
 
 
 def cut_randomly(rng, data, maxparts=3):
     if len(data) < 2:
         return [data]
+    high = [i for i in range(1, len(data)) if data[i] >= 0x80]
+    if high and rng.random() < 0.3:
+        # a read that begins with a byte >= 0x80 (what the first bytes of an SSLv2 hello look like)
+        c = rng.choice(high)
+        return [data[:c], data[c:]]
     k = rng.choice([1, 1, 2, 2, 3][:2 * maxparts - 1])
     cuts = sorted(rng.sample(range(1, len(data)), min(k - 1, len(data) - 1)))
     out, prev = [], 0
@@ -631,6 +651,7 @@ def make_case(cls, expect, data, orig, chunks=None, disconnect_after='end', **ex
 
 def corpus_cases():
     cases = []
+    H11_ = b'GET / HTTP/1.1\r\nHost: h\r\n\r\n'
     for good, tag in ((GOOD, 'get'), (GOOD_POST, 'post'), (GOOD_CHUNKED, 'chunked'), (GOOD_GZIP, 'gzip')):
         cases.append(make_case('well-formed', 'accept', good, good))
         cases.append(make_case('well-formed', 'accept', good, good, disconnect_after=None))
@@ -642,6 +663,14 @@ def corpus_cases():
         for cut in range(1, len(good), 7):
             cases.append(make_case('well-formed', 'accept', good, good, chunks=[good[:cut], good[cut:]]))
             cases.append(make_case('truncated', 'any', good[:cut], good, chunks=[good[:cut], good[cut:]], disconnect_after=1, truncated=True))
+    # field values with bytes >= 0x80, whole and cut at EVERY offset (a read may begin with such a byte)
+    cases.append(make_case('well-formed', 'accept', GOOD_OBS, GOOD_OBS))
+    for cut in range(1, len(GOOD_OBS)):
+        cases.append(make_case('well-formed', 'accept', GOOD_OBS, GOOD_OBS, chunks=[GOOD_OBS[:cut], GOOD_OBS[cut:]]))
+    for bad in (b'GET / HTTP/1.1\r\nHost: h\r\nNoColon \xe2\x80\xa8 here\r\n\r\n', b'GET /\xc3\xa9 HTTP/1.1\r\nHost: h\r\nContent-Length: \xb2\r\n\r\n'):
+        for cut in range(1, len(bad)):
+            if bad[cut] >= 0x80:
+                cases.append(make_case('high-byte-starts-a-read', 'any', bad, H11_, chunks=[bad[:cut], bad[cut:]]))
     H11 = b'GET / HTTP/1.1\r\nHost: h\r\n\r\n'
     fixed = [
         ('firstline-tokens', 'reject', b'GARBAGE\r\n\r\n'),
